@@ -283,6 +283,23 @@ def generate(prop, seed, tier="quick", fault_free=False):
                                               # overflow first, then enough stack (recovery)
                                               [400, 0, 5], [250, 60, 0, 250, 0]])})
             bid += 1
+    # size ladder: the text a hash is computed from lands right below / at / above a power of
+    # two (block and buffer sizes), with non-ASCII characters in it (characters != bytes); the
+    # two members of each rung differ in the very last constant of the query only
+    if w.random() < 0.45:
+        target = w.choice([1024, 2048, 4096, 8192, 8192, 16384, 32768, 65536])
+        node_l = w.randrange(n_nodes)
+        wide = "\u03bc" * 24 + "\u20ac" * 8  # 32 characters, 72 bytes
+        for d in range(0, 48, 3):
+            for tail in (80, 81):
+                stages = [["Select", "lambda e: e.col('PAD', '%s_\u0394R')" % wide],
+                          ["Where", f"lambda c: c.m_\u03bc\u03bc > {tail}"]]
+                ops.append({"op": "build", "id": bid, "node": node_l, "variant": f"ladder{tail}",
+                            "base": -3, "stages": stages, "mode": "str", "layout": 0,
+                            "dataset": 0, "post": None, "qmd": False, "exec_before": False,
+                            "want_pickle": False, "hash_early": False, "lift": False,
+                            "pad_to": target - d})
+                bid += 1
     # constant family: values that are equal in Python but differ in type (1 == 1.0 == True),
     # captured one after the other in the same process, each with its written-out twin
     if w.random() < 0.7:
@@ -449,7 +466,7 @@ def execute(case):
         if meta.get("post") == "simplify" or meta.get("received"):
             continue  # fresh names depend on the node's counter; received ASTs are stripped
         key = json.dumps([meta.get("stages"), meta.get("repeat"), meta.get("post"),
-                          meta.get("dataset", 0) % 3])
+                          meta.get("dataset", 0) % 3, meta.get("pad_to")])
         by_spec.setdefault(key, []).append((meta, h))
     for key, lst in by_spec.items():
         for i in range(1, len(lst)):
@@ -494,7 +511,7 @@ def execute(case):
 def _brief(b):
     return {k: b.get(k) for k in ("id", "node", "variant", "stages", "mode", "layout", "post", "qmd",
                                   "exec_before", "rehash", "dataset", "lift", "hash_early",
-                                  "repeat", "limit", "depths")
+                                  "repeat", "limit", "depths", "pad_to")
             if b.get(k) is not None}
 
 
